@@ -289,6 +289,13 @@ namespace sim
             {
                 if ((*it)->suspended()) earliest = std::min(earliest, wake_ns(**it)); else all_susp = false;
             }
+            // time passes continuously: never jump across the run's deadline, stop just behind it
+            auto mr = rt.configuration().max_runtime;
+            if (mr != std::chrono::milliseconds::zero() && vm->run_start_ns >= 0)
+            {
+                int64_t deadline = vm->run_start_ns + std::chrono::duration_cast<std::chrono::nanoseconds>(mr).count();
+                if (g->clock_ns <= deadline && earliest > deadline + 1000) { earliest = deadline + 1000; g->probe("idle_jump_capped_at_deadline"); }
+            }
             if (all_susp && earliest != INT64_MAX && earliest > g->clock_ns)
             {
                 g->ev({ "cj", vm->id, g->clock_ns, earliest });
@@ -408,6 +415,7 @@ namespace sim
     }
     static void h_yield(runtime& rt, int site)
     {
+        if (site == verif::cas_start) { g->vm_of(rt)->run_start_ns = g->clock_ns; }
         g->probes["site" + std::to_string(site)]++;
         thread_yield(site);
     }
